@@ -1,6 +1,7 @@
 package c11
 
 import (
+	"errors"
 	"fmt"
 	"strconv"
 	"strings"
@@ -56,6 +57,28 @@ func fSel(tag int, cond int, chosen string) string {
 }
 func fFirst(tag int, first string, n int) string {
 	return "f" + strconv.Itoa(tag) + "<" + first + "/" + strconv.Itoa(n) + ">"
+}
+
+// Failing kinds: the processor returns (fallback value, error) for some inputs.
+// nodes.Struct.Value() hands out whatever value Process() returned, so the value
+// of a failed node is the fallback; the second result says whether it failed.
+func fChkI(tag int, in int) (int, bool) {
+	if in < 0 {
+		return -(tag*7919 + 13), true // fails on a negative input (an unwired input reads as -1)
+	}
+	return (in*2+1)*257 + tag, false
+}
+
+func fChkS(tag int, in string) (string, bool) {
+	var h uint32 = 2166136261
+	for i := 0; i < len(in); i++ {
+		h ^= uint32(in[i])
+		h *= 16777619
+	}
+	if h%3 == 0 {
+		return "e" + strconv.Itoa(tag) + "!", true // fails on a third of all strings
+	}
+	return "k" + strconv.Itoa(tag) + "<" + in + ">", false
 }
 
 func fUntil(tag int, k int, v int) string {
@@ -208,6 +231,36 @@ func (d IFmt) Process() (string, error) {
 	return fIFmt(d.R.tag, vI(d.In)), nil
 }
 
+var errProcessor = errors.New("harness processor: inadmissible input")
+
+type ChkI struct {
+	In nodes.NodeOutput[int]
+	R  *rec
+}
+
+func (d ChkI) Process() (int, error) {
+	d.R.hit()
+	v, failed := fChkI(d.R.tag, vI(d.In))
+	if failed {
+		return v, errProcessor
+	}
+	return v, nil
+}
+
+type ChkS struct {
+	In nodes.NodeOutput[string]
+	R  *rec
+}
+
+func (d ChkS) Process() (string, error) {
+	d.R.hit()
+	v, failed := fChkS(d.R.tag, vS(d.In))
+	if failed {
+		return v, errProcessor
+	}
+	return v, nil
+}
+
 // Sel reads Cond and then exactly one of A / B.
 type Sel struct {
 	Cond nodes.NodeOutput[int]
@@ -286,6 +339,7 @@ type kind struct {
 	named []inSpec
 	arr   *inSpec // array input, if any
 	lazy  bool
+	fails bool // the processor returns an error for some inputs
 }
 
 const (
@@ -301,6 +355,8 @@ const (
 	kSel
 	kFirst
 	kUntil
+	kChkI
+	kChkS
 )
 
 var kinds = []kind{
@@ -316,9 +372,11 @@ var kinds = []kind{
 	kSel:   {name: "Sel", out: tS, named: []inSpec{{"Cond", tI}, {"A", tS}, {"B", tS}}, lazy: true},
 	kFirst: {name: "First", out: tS, arr: &inSpec{"Values", tS}, lazy: true},
 	kUntil: {name: "Until", out: tS, arr: &inSpec{"Values", tI}, lazy: true},
+	kChkI:  {name: "ChkI", out: tI, named: []inSpec{{"In", tI}}, fails: true},
+	kChkS:  {name: "ChkS", out: tS, named: []inSpec{{"In", tS}}, fails: true},
 }
 
-var eagerKinds = []int{kU1, kS2, kS3, kSArr, kSMix, kI2, kIArr, kSLen, kIFmt}
+var eagerKinds = []int{kU1, kS2, kS3, kSArr, kSMix, kI2, kIArr, kSLen, kIFmt, kChkI, kChkS, kChkI, kChkS}
 
 func (k kind) String() string { return k.name }
 
